@@ -1338,6 +1338,24 @@ Proof.
 Qed.
 
 
+(** the repaired functions return the memory at entry on every failure exit; in a fault-free run
+    the failure exits already do ([ospec]: r <> Ok -> m' = m) *)
+Lemma keep_old_res : forall g m t, snd (keep_old g m t) = snd t.
+Proof. intros g m [m' r]. unfold keep_old. destruct (fix_mem g && negb (is_ok (snd (m', r)))); reflexivity. Qed.
+
+Lemma ospec_keepold : forall g w v m p, ospec g w v m p -> ospec g w v m (keepold g m p).
+Proof.
+  intros g w v m p [w' [m' [r [vp [Hff [Hc [Hst Hr]]]]]]].
+  assert (Hk : keep_old g m (m', r) = (m', r)).
+  { unfold keep_old. cbn [snd]. destruct (fix_mem g && negb (is_ok r)) eqn:E; [| reflexivity].
+    apply Bool.andb_true_iff in E. destruct E as [_ E]. assert (Hne : r <> Ok) by (intro; subst r; discriminate).
+    destruct (Hr Hne) as [_ Hm]. subst m'. reflexivity. }
+  exists w', m', r, vp. unfold keepold. split; [rewrite ff_bind, Hff; cbn [ff]; rewrite Hk; reflexivity |].
+  split; [exact Hc |]. split; [| exact Hr].
+  apply Forall_states_bind; [exact Hst |]. intros a Ha. rewrite Hff in *. cbn [fst snd] in *. inversion Ha; subst a.
+  apply Forall_states_ret. apply Good_post. apply Hc.
+Qed.
+
 (** the commit stage of createDisk: volume.meta is rewritten to name the new head, then the old
     head's two files are removed *)
 Lemma cd_commit_spec : forall g w3 v ma n s nd rec idn id0 d0 tl gn,
@@ -3718,7 +3736,7 @@ Proof.
       * apply sspec_ret; [exact Hinv | exact Hrec | auto].
       * apply sspec_ret; [exact Hinv | exact Hrec | auto].
     + apply sspec_lift. apply write_at_spec. exact Hctx.
-    + destruct Hok as [Hd Hc]. apply sspec_lift. apply create_disk_spec; assumption.
+    + destruct Hok as [Hd Hc]. apply sspec_lift. apply ospec_keepold. apply create_disk_spec; assumption.
     + apply sspec_lift. apply remove_diff_disk_spec; assumption.
     + (* prepare *)
       destruct (prepare_remove_disk_spec g w v m d Hctx) as [w' [m' [r [k [vp [Hff [Hc' [Hst Hr]]]]]]]].
@@ -3729,8 +3747,8 @@ Proof.
         apply Forall_states_ret. apply Good_post. apply Hc'.
       * intros H. destruct (Hr H) as [E1 E2]. subst. auto.
     + apply sspec_lift. apply revert_disk_spec; assumption.
-    + apply sspec_lift. apply resize_spec. exact Hctx.
-    + apply sspec_lift. apply op_spec_ospec; [exact Hctx |]. apply set_checkpoint_spec; assumption.
+    + apply sspec_lift. apply ospec_keepold. apply resize_spec. exact Hctx.
+    + apply sspec_lift. apply ospec_keepold. apply op_spec_ospec; [exact Hctx |]. apply set_checkpoint_spec; assumption.
     + destruct b; destruct (mstate m); try (apply sspec_ret; [exact Hinv | exact Hrec | auto]);
         (apply sspec_lift; apply op_spec_ospec; [exact Hctx |]; apply set_rebuilding_spec; assumption).
     + apply sspec_lift. apply replace_refused_spec; assumption.
@@ -3852,11 +3870,11 @@ Proof.
     unfold dir_of_run in H1. cbn [fst] in H1. 
     assert (Hq : ids_fresh wx) by (rewrite H1; apply ff_fresh; apply ids_fresh_empty).
     destruct ox as [[[om e] n] | |]; exact Hq. }
-  destruct g as [ml fx fd fr fc fch]. cbn [maxlen] in Hcfg.
+  destruct g as [ml fx fd fr fc fch fm]. cbn [maxlen] in Hcfg.
   destruct ml as [| [| ml]]; try lia. destruct size as [| p]; [congruence |].
-  assert (Hmem : s_mem (created (mkcfg (S (S ml)) fx fd fr fc fch) (N.pos p) now) = None).
+  assert (Hmem : s_mem (created (mkcfg (S (S ml)) fx fd fr fc fch fm) (N.pos p) now) = None).
   { destruct fx, fd; vm_compute; reflexivity. }
-  assert (Hrec : exists v, recover (mkcfg (S (S ml)) fx fd fr fc fch) (s_fs (created (mkcfg (S (S ml)) fx fd fr fc fch) (N.pos p) now)) = Some v
+  assert (Hrec : exists v, recover (mkcfg (S (S ml)) fx fd fr fc fch fm) (s_fs (created (mkcfg (S (S ml)) fx fd fr fc fch fm) (N.pos p) now)) = Some v
                           /\ wf_view v).
   { destruct fx, fd; (eexists; split; [vm_compute; reflexivity |]);
       (exists 0, 1%N, (mkdisk None false false now 1), []; cbn [cv_chain cv_info];
@@ -4221,6 +4239,9 @@ Proof.
   intros g om o Hpl Hnc.
   assert (Hlift : forall (p : prog (mem * res)), durP Qop false p -> durP (fun a pd => snd (fst a) = Ok -> pd = false) false (lift p)).
   { intros p Hp. unfold lift. eapply durP_bind; [exact Hp |]. intros [m e] pd' H. cbn. exact H. }
+  assert (Hkeep : forall m0 (p : prog (mem * res)) pd, durP Qop pd p -> durP Qop pd (keepold g m0 p)).
+  { intros m0 p pd Hp. unfold keepold. eapply durP_bind; [exact Hp |]. intros a pd' H. cbn [durP]. unfold Qop in *.
+    rewrite keep_old_res. exact H. }
   destruct om as [m |]; destruct o; cbn [op_prog]; try contradiction; try (exfalso; eapply Hnc; reflexivity);
     try (cbn; intros; reflexivity).
   - (* close *)
@@ -4236,7 +4257,7 @@ Proof.
       destruct (is_err r2); cbn; unfold Qop; cbn; [discriminate | reflexivity].
     + destruct (i_head _); [| cbn; unfold Qop; cbn; discriminate]. cbn [durP]. intros r _.
       destruct (is_err r); cbn; unfold Qop; cbn; [discriminate | reflexivity].
-  - apply Hlift. apply dp_create_disk.
+  - apply Hlift. apply Hkeep. apply dp_create_disk.
   - apply Hlift. apply dp_remove_diff_disk.
   - (* prepare *)
     eapply durP_bind with (Q := fun a pd => snd (fst a) = Ok -> pd = false); [| intros [[m1 e] n] pd' H; cbn; exact H].
@@ -4252,12 +4273,12 @@ Proof.
     destruct (m_disks _ d0); cbn; [intros _; apply H; reflexivity | discriminate].
   - apply Hlift. apply dp_revert.
   - (* resize *)
-    apply Hlift. unfold resize. destruct (mchain g m); [| cbn; unfold Qop; cbn; discriminate].
+    apply Hlift. apply Hkeep. unfold resize. destruct (mchain g m); [| cbn; unfold Qop; cbn; discriminate].
     destruct (N.ltb sz _); [cbn; unfold Qop; cbn; discriminate |].
     eapply durP_bind; [apply dp_truncate_all |]. intros okf pd' Hpd. cbn beta in Hpd. rewrite Hpd.
     destruct (negb okf); [cbn; unfold Qop; cbn; discriminate |].
     eapply durP_bind; [apply dp_encode |]. intros e pd2 H. cbn. exact H.
-  - apply Hlift. unfold set_checkpoint. eapply durP_bind; [apply dp_encode |]. intros e pd' H. cbn. exact H.
+  - apply Hlift. apply Hkeep. unfold set_checkpoint. eapply durP_bind; [apply dp_encode |]. intros e pd' H. cbn. exact H.
   - destruct b; destruct (mstate m); try (cbn; discriminate);
       (apply Hlift; unfold set_rebuilding; eapply durP_bind; [apply dp_encode |]; intros e pd' H;
        destruct (is_ok e) eqn:E; [| cbn; unfold Qop; cbn; discriminate];
@@ -4289,7 +4310,7 @@ Proof. intros g s a. revert s. induction a as [| o t IH]; intros s b; [reflexivi
 
 (** the code as it is today: duplicate snapshot names are refused (repaired in /repo 3b20437), the
     other repairs are not in *)
-Definition cfg_asis (maxlen : nat) : cfg := mkcfg maxlen false true false false false.
+Definition cfg_asis (maxlen : nat) : cfg := mkcfg maxlen false true false false false false.
 
 Definition wit_state : st := run_ops (cfg_asis 8) (created (cfg_asis 8) 16384 7) [OOpen; OSetMode (Some RW)].
 
@@ -4317,8 +4338,8 @@ Qed.
 Theorem fault_refuted_sync_after_commit :
   fault_outcome (cfg_asis 8) wit_state (OSnap 1 false 1) 26 EIO = (CErr, false)
   (* ... also with the write error tested (F5 repaired) *)
-  /\ fault_outcome (mkcfg 8 true true false false false)
-       (run_ops (mkcfg 8 true true false false false) (created (mkcfg 8 true true false false false) 16384 7) [OOpen; OSetMode (Some RW)])
+  /\ fault_outcome (mkcfg 8 true true false false false false)
+       (run_ops (mkcfg 8 true true false false false false) (created (mkcfg 8 true true false false false false) 16384 7) [OOpen; OSetMode (Some RW)])
        (OSnap 1 false 1) 26 EIO = (CErr, false).
 Proof. split; vm_compute; reflexivity. Qed.
 
